@@ -1,0 +1,21 @@
+//go:build verif
+
+// Contracts for govc (contract-based deductive verification, /verif). Comment-only file:
+// it is compiled only under the build tag "verif" and contains no code.
+
+package bfe_http
+
+//@ spec isHex(b byte) bool := ('0' <= b && b <= '9') || ('a' <= b && b <= 'f') || ('A' <= b && b <= 'F')
+//@ spec digit(b byte) uint64 := b <= '9' ? uint64(b-'0') : (b <= 'F' ? uint64(b-'A'+10) : uint64(b-'a'+10))
+//@ spec hexval(v []byte, n int) uint64 := n <= 0 ? 0 : hexval(v, n-1)*16 + digit(v[n-1])
+
+//@ func parseHexUint
+//@   props C23
+//@   arith bv
+//@   nopanic
+//@   ensures[accept_only_1_to_16_hex_digits] err == nil ==> 1 <= len(v) && len(v) <= 16 && (forall k int :: 0 <= k && k < len(v) ==> isHex(v[k]))
+//@   ensures[reject_only_malformed] err != nil ==> len(v) == 0 || len(v) > 16 || (exists k int :: 0 <= k && k < len(v) && !isHex(v[k]))
+//@   ensures[value] err == nil ==> n == hexval(v, len(v))
+//@   loop 1 invariant[count] 0 <= rangeindex+1 && rangeindex+1 <= len(v) && rangeindex+1 <= 16
+//@   loop 1 invariant[prefix_hex] forall k int :: 0 <= k && k <= rangeindex ==> isHex(v[k])
+//@   loop 1 invariant[prefix_value] n == hexval(v, rangeindex+1)
